@@ -2,7 +2,9 @@
 // Property sentence -> contract: "sozu respects every HTTP/2 peer limit and keeps transfers moving": a WINDOW_UPDATE is
 // the only thing that gives send window back (RFC 9113 §6.9), so
 //   - a legal increment on stream 0 adds exactly `increment` to the connection send window and to nothing else; on a
-//     known stream it adds exactly `increment` to that stream's send window and to nothing else;
+//     known stream it adds exactly `increment` to that stream's send window TOWARDS THE PEER THAT SENT IT and to
+//     nothing else — in particular not to the same stream's window towards the other peer (a frontend's WINDOW_UPDATE
+//     must never let sozu send more to the backend, and vice versa: F27);
 //   - a window that was exhausted (<= 0) and becomes positive re-arms writing (otherwise the transfer stays parked);
 //   - an increment of 0, an increment that would take a window above 2^31-1, a flood violation and an unknown stream
 //     leave the connection window untouched (they end in GOAWAY / RST_STREAM / a glitch count).
@@ -24,9 +26,29 @@ pub enum MuxResult { Continue, Other(MuxResultRest) }
 pub trait ListenerHandler {}
 pub trait L7ListenerHandler {}
 
-pub struct Stream { pub window: i32, pub metrics: SessionMetrics }
+// the stream's two send windows (towards the frontend's peer, towards the backend's peer) and the accessors that pick
+// the one of a connection's side: REAL text of Stream::send_window / Stream::set_send_window (contracts also in U-h2win)
+pub struct Stream { pub window: i32, pub back_window: i32, pub metrics: SessionMetrics }
+#[verifier::external_body] pub struct ClientRest { _p: () }
+pub enum Position { Client(ClientRest), Server }
+pub open spec fn spec_send_window(s: Stream, p: Position) -> i32 { if p is Server { s.window } else { s.back_window } }
+pub open spec fn spec_other_window(s: Stream, p: Position) -> i32 { if p is Server { s.back_window } else { s.window } }
+impl Stream {
+    //@fn lib/src/protocol/mux/stream.rs Stream::send_window
+    //@  ret r
+    //@  ensures
+    //@    r == spec_send_window(*self, *position),                                                   // [the-send-window-of-a-side-is-that-sides-own]
+    //@end
+    //@fn lib/src/protocol/mux/stream.rs Stream::set_send_window
+    //@  ensures
+    //@    spec_send_window(*final(self), *position) == window,                                       // [setting-a-sides-window-stores-the-value]
+    //@    spec_other_window(*final(self), *position) == spec_other_window(*old(self), *position),    // [setting-one-sides-window-leaves-the-other-sides-alone]
+    //@    final(self).metrics == old(self).metrics,
+    //@end
+}
 pub struct Context<L> { pub streams: Vec<Stream>, pub verif_listener: PhantomData<L> }
-pub open spec fn spec_windows<L>(c: &Context<L>) -> Seq<i32> { Seq::new(c.streams@.len(), |i: int| c.streams@[i].window) }
+// every stream's pair of send windows (this side's, the other side's)
+pub open spec fn spec_windows<L>(c: &Context<L>) -> Seq<(i32, i32)> { Seq::new(c.streams@.len(), |i: int| (c.streams@[i].window, c.streams@[i].back_window)) }
 
 // readiness: only "was writing (re-)armed" matters here (arm_writable itself is proved in K-ready)
 pub struct Readiness { pub verif_armed: Ghost<nat> }
@@ -57,7 +79,7 @@ pub fn verif_try_i32_u32(n: u32) -> (r: Option<i32>) ensures n <= i32::MAX ==> r
 #[verifier::external_body]
 pub fn verif_u32_saturating_add(a: u32, b: u32) -> (r: u32) ensures r == (if a + b > u32::MAX { u32::MAX } else { (a + b) as u32 }) { unimplemented!() }
 
-pub struct ConnectionH2 { pub streams: StreamMap, pub flow_control: FlowControl, pub flood_detector: H2FloodDetector, pub readiness: Readiness }
+pub struct ConnectionH2 { pub streams: StreamMap, pub flow_control: FlowControl, pub flood_detector: H2FloodDetector, pub readiness: Readiness, pub position: Position }
 impl ConnectionH2 {
     // every wire stream id of this connection maps into context.streams
     pub open spec fn owns(&self, n: int) -> bool { forall|id: StreamId| (#[trigger] self.streams.spec_get(id)) matches Some(g) ==> g < n }
@@ -77,10 +99,10 @@ impl ConnectionH2 {
         ensures final(self).flow_control == old(self).flow_control { unimplemented!() }
     #[verifier::external_body]
     pub fn attribute_bytes_to_overhead(&mut self)
-        ensures final(self).flow_control == old(self).flow_control, final(self).streams == old(self).streams, final(self).readiness == old(self).readiness, final(self).flood_detector == old(self).flood_detector { unimplemented!() }
+        ensures final(self).flow_control == old(self).flow_control, final(self).streams == old(self).streams, final(self).readiness == old(self).readiness, final(self).flood_detector == old(self).flood_detector, final(self).position == old(self).position { unimplemented!() }
     #[verifier::external_body]
     pub fn attribute_bytes_to_stream(&mut self, metrics: &mut SessionMetrics)
-        ensures final(self).flow_control == old(self).flow_control, final(self).streams == old(self).streams, final(self).readiness == old(self).readiness, final(self).flood_detector == old(self).flood_detector { unimplemented!() }
+        ensures final(self).flow_control == old(self).flow_control, final(self).streams == old(self).streams, final(self).readiness == old(self).readiness, final(self).flood_detector == old(self).flood_detector, final(self).position == old(self).position { unimplemented!() }
 
     //@fn lib/src/protocol/mux/h2.rs ConnectionH2::handle_window_update_frame
     //@  ret r
@@ -109,13 +131,15 @@ impl ConnectionH2 {
     //@    (wu.stream_id != 0 && wu.increment > 0) ==> final(self).flow_control.window == old(self).flow_control.window, // [a-stream-window-update-leaves-the-connection-window-alone]
     //@    (wu.stream_id != 0 && wu.increment > 0 && old(self).streams.spec_get(wu.stream_id) is Some) ==> {
     //@        let g = old(self).streams.spec_get(wu.stream_id).unwrap() as int;
-    //@        let sum = old(context).streams@[g].window + wu.increment;
+    //@        let before = spec_send_window(old(context).streams@[g], old(self).position);
+    //@        let sum = before + wu.increment;
     //@        sum <= i32::MAX ==> {
-    //@            &&& final(context).streams@[g].window == sum
-    //@            &&& forall|k: int| 0 <= k < old(context).streams@.len() && k != g ==> (#[trigger] final(context).streams@[k]).window == old(context).streams@[k].window
-    //@            &&& (old(context).streams@[g].window <= 0 && sum > 0 ==> final(self).readiness.verif_armed@ > old(self).readiness.verif_armed@)
+    //@            &&& spec_send_window(final(context).streams@[g], old(self).position) == sum
+    //@            &&& spec_other_window(final(context).streams@[g], old(self).position) == spec_other_window(old(context).streams@[g], old(self).position)
+    //@            &&& forall|k: int| 0 <= k < old(context).streams@.len() && k != g ==> (#[trigger] final(context).streams@[k]).window == old(context).streams@[k].window && final(context).streams@[k].back_window == old(context).streams@[k].back_window
+    //@            &&& (before <= 0 && sum > 0 ==> final(self).readiness.verif_armed@ > old(self).readiness.verif_armed@)
     //@        }
-    //@    },                                                                                         // [a-stream-window-update-adds-exactly-the-increment-to-that-stream-only-and-re-arms-writing-when-it-reopens]
+    //@    },                                                                                         // [a-stream-window-update-adds-exactly-the-increment-to-this-peers-window-of-that-stream-only-and-re-arms-writing-when-it-reopens]
     //@    (wu.stream_id != 0 && wu.increment > 0 && old(self).streams.spec_get(wu.stream_id) is None) ==> spec_windows(final(context)) =~= spec_windows(old(context)), // [an-update-for-an-unknown-stream-gives-no-window]
     //@end
 }
